@@ -41,9 +41,9 @@ struct StreamState {
     bool connect_parked = false, connect_hung = false; Handler0 connect_h; tcp::endpoint connect_ep; std::optional<WorkGuard> connect_w;
     bool read_parked = false; HandlerRW read_h; char* read_ptr = nullptr; size_t read_cap = 0; std::optional<WorkGuard> read_w;
     bool write_parked = false; HandlerRW write_h; std::string write_data; bool write_delivered = false; std::optional<WorkGuard> write_w;
-    std::string lw_data; size_t lw_written = 0;   // logical (composed) write in progress: asio::async_write continues after short writes
+    std::string lw_data; size_t lw_written = 0; int64_t lw_start_ns = 0; size_t lw_seq_start = 0;   // logical (composed) write in progress: asio::async_write continues after short writes
     bool shutdown_parked = false, shutdown_hung = false; Handler0 shutdown_h; std::optional<WorkGuard> shutdown_w;
-    uint64_t connect_started_ns = 0;
+    int64_t connect_started_ns = -1, closed_ns = -1, first_error_ns = -1, connect_done_ns = -1; bool connect_failed = false; int host_index = -1; size_t connect_seq = 0; int64_t read_cancelled_ns = -1;   // first time a parked read was cancelled through its slot (timed read)
 };
 using StreamPtr = std::shared_ptr<StreamState>;
 
@@ -55,11 +55,11 @@ struct Conn {
     bool broker_closed = false;                 // broker closed after its queued bytes (EOF once drained)
     bool client_closed = false;                 // client closed / shut down
     bool established = false;
-    uint64_t bytes_c2b = 0, bytes_b2c_read = 0;
+    uint64_t bytes_c2b = 0, bytes_b2c_read = 0; int64_t last_read_ns = -1, first_read_start_ns = -1; std::vector<std::pair<uint64_t, int64_t>> read_marks;   // (cumulative bytes read, time)
 };
 
 struct NetLogEntry { int64_t t; std::string what; };
-struct WriteLog { int conn; int stream; std::string data; bool ok; size_t reported; int64_t t; size_t wire_mark; };
+struct WriteLog { int conn; int stream; std::string data; bool ok; size_t reported; int64_t t; size_t wire_mark; int64_t t_start; size_t seq_start; };
 
 // Callbacks implemented by the broker model.
 struct BrokerHooks {
@@ -67,6 +67,7 @@ struct BrokerHooks {
     virtual void on_open(int conn) = 0;
     virtual void on_bytes(int conn) = 0;          // new bytes in Conn::c2b
     virtual void on_client_close(int conn) = 0;
+    virtual bool handshake_done(int conn) = 0;
 };
 
 class Net {
@@ -81,7 +82,9 @@ public:
     int connect_calls = 0, max_parallel_connects = 0, connects_after_stop = 0;
     bool stop_marker = false;                     // set by scenarios after cancel()/disconnect completion
     int writes_started_after_stop = 0;
-    uint64_t handler_posts = 0;
+    uint64_t handler_posts = 0; size_t op_seq = 0;   // op_seq: global counter of stream operations started (orders writes against app actions)
+    int attempts_in_progress() const;             // streams between async_connect and (handshake done | closed)
+    int max_attempts_in_progress = 0;
 
     StreamPtr new_stream(const asio::any_io_executor& ex);
     void stream_destroyed(const StreamPtr& s);
